@@ -124,6 +124,41 @@ def nonstr_keys(case, k0, k1, v, bad, nested):
         if o[0] == "other_exc": return dbg(("NK other", k, o[1]))
         if o[0] == "load_error" and not only_load_errors(o[2]): return dbg(("NK leaves", k))
     return True
+# ---- stdlib numeric-tower data (Decimal / Fraction / complex specials) against every builtin scalar, literal, enum and container loader
+import enum as _enum, datetime as _dtm, uuid as _uuid, ipaddress as _ip, pathlib as _pl, io as _io, os as _os2
+from decimal import Decimal as _D
+from fractions import Fraction as _F
+class NT_E(_enum.Enum):
+    A = 1
+    B = "b"
+class NT_F(_enum.Flag):
+    X = 1
+    Y = 2
+class NT_IE(_enum.IntEnum):
+    P = 1
+NT_POOL = (_D("sNaN"), _D("NaN"), _D("Infinity"), _D("-Infinity"), _D("1e400"), _D("-0"), _D("1.5"), _D("1"), _F(10 ** 5000), _F(1, 3), _F(1),
+           complex(nan, 0), complex(0, inf), complex(1, 0), 10 ** 5000, -(10 ** 5000), _D("1e-400"), _D(10 ** 5000))
+NT_TYPES = (int, float, str, bool, _D, _F, complex, bytes, bytearray, _dtm.timedelta, _dtm.date, _dtm.time, _dtm.datetime, re.Pattern,
+            _uuid.UUID, _ip.IPv4Address, _ip.IPv6Address, _ip.IPv4Network, _ip.IPv6Network, _ip.IPv4Interface, _ip.IPv6Interface,
+            _pl.PurePosixPath, _pl.PureWindowsPath, _pl.PurePath, _pl.Path, _io.BytesIO, IO[bytes], ByteString, _os2.PathLike[str], LiteralString,
+            Literal[1, "a"], Literal[0, 1, "x"], Literal[1, 2, 3, 4, 5], Literal[NT_E.A, 1], Literal[b"a", 1], NT_E, NT_F, NT_IE, None, Any,
+            Optional[int], Union[int, str], Union[float, None, _D], List[int], Set[int], Dict[str, int], Dict[int, str], Tuple[int, str],
+            Tuple[float, ...], Deque[_D], DefaultDict[str, List[_F]], FrozenSet[complex], Union[Literal[1], Literal["a"], None])
+NT_LD = [{k: r.get_loader(t) for k, r in RS.items()} for t in NT_TYPES]
+def numeric_tower(ti, di, kind):
+    d = NT_POOL[di]
+    kind = pick(kind, 6)
+    if kind == 0: data = d
+    elif kind == 1: data = [d]
+    elif kind == 2: data = {"a": d}
+    elif kind == 3: data = {d: 1} if di != 0 else (d,)        # sNaN is unhashable
+    elif kind == 4: data = (d, "a")
+    else: data = [1, d]
+    for k, l in NT_LD[ti].items():
+        o = outcome(l, data)
+        if o[0] == "other_exc": return dbg(("numeric_tower", ti, di, kind, k, o[1]))
+        if o[0] == "load_error" and not only_load_errors(o[2]): return False
+    return True
 PATTERNS = ("a{4294967296}", "(", "a{2,1}", "[", "(?P<x>a)(?P<x>b)", "a" * 3 + "{65536}{65536}", chr(92), "(?z)", "*", "a**")
 PAT_LD = {k: r.get_loader(re.Pattern) for k, r in RS.items()}
 def pattern_pool(i):
@@ -176,6 +211,23 @@ def lit_c04(name, kind, d):
               family="mappings with non-string keys x every extra policy of a dict-layout model",
               bounds="model with extra policy " + cname + "; 2 unknown keys from an 8-value pool (int, None, tuple, float, bytes, bool, str, negative int), "
                      "optionally repeated in a nested crown; field value symbolic int or a rejected str; 6 modes")
+    mx.nat("numeric_tower", '''
+def nat_numeric_tower():
+    bad, ev = [], 0
+    for ti in range(len(NT_TYPES)):
+        for di in range(len(NT_POOL)):
+            for kind in range(6):
+                ev += 6
+                if not numeric_tower(ti, di, kind): bad.append({"ti": str(ti), "di": str(di), "kind": str(kind)})
+    return {"status": "REFUTED" if bad else "CONFIRMED", "cexs": bad[:5], "evaluations": ev,
+            "note": "labelled native enumeration: the values are pooled stdlib objects (CrossHair replaces the Decimal class; no symbolic dimension)"}
+
+def chk_numeric_tower(ti, di, kind):
+    return numeric_tower(ti, di, kind)
+''', timeout=120,
+           family="stdlib numeric-tower data (Decimal sNaN/NaN/Infinity/huge exponent, huge Fraction, complex nan/inf, +-10**5000) x every builtin loader (labelled enumeration)",
+           bounds="53 builtin-supported types (scalars, IP/path/IO types, literals, enums, flags, unions, containers) x 18 pooled values bare or inside "
+                  "5 container shapes (list, dict value, dict key, tuple, list tail) x 6 modes; native")
     mx.nat("huge_trail_key", '''
 def nat_huge_trail_key():
     bad = [{"sel": str(sel), "v": str(v)} for sel in range(3) for v in (0, -1, 7) if not huge_key(sel, v)]
